@@ -2,21 +2,25 @@
 // or hang).
 //
 // (i)  model-vs-implementation: random rune lists (valid UTF-8; ASCII for the
-//      case decoders, whose model classifies ASCII only) through every text
-//      entry point - the eight case decoders, parse.String at a pool of types,
-//      the integral slice parsers, strconv.Unquote - each call wrapped in
-//      recover() and a watchdog; the outcome is compared with the Gallina
-//      model inside Coq (Dials.Check.C16Check).
+//
+//	case decoders, whose model classifies ASCII only) through every text
+//	entry point - the eight case decoders, parse.String at a pool of types,
+//	the integral slice parsers, strconv.Unquote - each call wrapped in
+//	recover() and a watchdog; the outcome is compared with the Gallina
+//	model inside Coq (Dials.Check.C16Check).
+//
 // (ii) byte-level exploration on the implementation alone: invalid UTF-8,
-//      NULs, non-ASCII, inputs up to 64 kB; oracle "returned a value or an
-//      error within the deadline, no panic", reported through Result.Direct.
-//      This part is exploration, not proof: the byte level of text/scanner,
-//      strconv and x/text is not modelled.
+//
+//	NULs, non-ASCII, inputs up to 64 kB; oracle "returned a value or an
+//	error within the deadline, no panic", reported through Result.Direct.
+//	This part is exploration, not proof: the byte level of text/scanner,
+//	strconv and x/text is not modelled.
 package main
 
 import (
 	"encoding/json"
 	"fmt"
+	"os"
 	"reflect"
 	"strconv"
 	"strings"
@@ -32,14 +36,18 @@ import (
 )
 
 type input struct {
-	K      string `json:"k"`
-	D      int    `json:"d,omitempty"`
-	S      string `json:"s,omitempty"`
-	B      []byte `json:"b,omitempty"` // byte-level inputs (base64 in JSON)
-	T      string `json:"t,omitempty"`
-	Signed bool   `json:"signed,omitempty"`
-	W      int    `json:"w,omitempty"`
-	E      int    `json:"e,omitempty"` // entry point of the byte-level fuzz
+	K      string   `json:"k"`
+	D      int      `json:"d,omitempty"`
+	S      string   `json:"s,omitempty"`
+	B      []byte   `json:"b,omitempty"` // byte-level inputs (base64 in JSON)
+	T      string   `json:"t,omitempty"`
+	Signed bool     `json:"signed,omitempty"`
+	W      int      `json:"w,omitempty"`
+	E      int      `json:"e,omitempty"` // entry point of the byte-level fuzz / encoder number
+	D2     int      `json:"d2,omitempty"`
+	L      []string `json:"l,omitempty"`   // word list for the encoders
+	Env    [][]byte `json:"env,omitempty"` // raw environment block of the child process
+	Cfg    int      `json:"cfg,omitempty"`
 }
 
 const deadline = 2 * time.Second
@@ -136,7 +144,7 @@ var floatTypes = []reflect.Type{reflect.TypeOf(float32(0)), reflect.TypeOf(float
 	reflect.TypeOf(complex128(0)), reflect.TypeOf(time.Duration(0)), reflect.TypeOf([]float64{}), reflect.TypeOf([]time.Duration{}),
 	reflect.TypeOf(map[string]complex128{})}
 
-const nFuzzEntries = 8 + 16 + 8 + 11 + 4
+const nFuzzEntries = 8 + 16 + 8 + 11 + 4 + 6 + 8
 
 func fuzzEntry(e int, s string) (name string, f func() string) {
 	ret := func(err error) string {
@@ -189,7 +197,7 @@ func fuzzEntry(e int, s string) (name string, f func() string) {
 				_ = fl.String()
 				return ret(err)
 			}
-		default:
+		case 3:
 			return "MapStringStringSliceFlag.Set", func() string {
 				v := map[string][]string{}
 				fl := flaghelper.NewMapStringStringSliceFlag(&v)
@@ -197,6 +205,31 @@ func fuzzEntry(e int, s string) (name string, f func() string) {
 				_ = fl.String()
 				return ret(err)
 			}
+		}
+		if k := e - 47; k < 6 {
+			// an encoder on the comma-separated pieces of the input, then every decoder on its output
+			return fmt.Sprintf("encoder%d", k), func() string {
+				out := encoders[k](cc.DecodedIdentifier(strings.Split(s, ",")))
+				for _, d := range decoders {
+					_, _ = d(out)
+				}
+				return "ok"
+			}
+		}
+		d := e - 53
+		// a decoder, then every encoder on its words, then every decoder on every encoding
+		return fmt.Sprintf("pipeline%d", d), func() string {
+			ws, err := decoders[d](s)
+			if err != nil {
+				return "err"
+			}
+			for _, enc := range encoders {
+				out := enc(ws)
+				for _, d2 := range decoders {
+					_, _ = d2(out)
+				}
+			}
+			return "ok"
 		}
 	}
 }
@@ -237,6 +270,16 @@ func run1(raw json.RawMessage, skipOut *bool) driver.Result {
 	}
 	defer func() { *skipOut = skip }()
 	switch in.K {
+	case "enc":
+		res := runEnc(in, fail)
+		res.Direct = direct
+		return res
+	case "pipe":
+		res := runPipe(in, fail)
+		res.Direct = direct
+		return res
+	case "envp":
+		return runEnvChild(in)
 	case "dec":
 		out, what := call(func() string {
 			ws, err := decoders[in.D](in.S)
@@ -409,8 +452,21 @@ func gen(r *coqfmt.Rng, n int, tier string) []json.RawMessage {
 	}
 	tg := textgen.New(r)
 	for i := 0; i < n; i++ {
-		switch x := r.Intn(100); {
-		case x < 20:
+		switch x := r.Intn(1000) / 10; {
+		case r.Intn(125) == 0: // child processes are expensive: ~0.8 %
+			add(input{K: "envp", Cfg: r.Intn(nEnvCfgs), Env: genEnvp(r)})
+		case x < 7:
+			add(input{K: "enc", E: r.Intn(6), L: genWords(r, tg)})
+		case x < 13:
+			s := genIdent(r)
+			switch r.Intn(5) {
+			case 0:
+				s = tg.String()
+			case 1:
+				s = strings.Join(genWords(r, tg), coqfmt.Pick(r, []string{"_", "-", "", "__"}))
+			}
+			add(input{K: "pipe", D: r.Intn(8), E: r.Intn(6), D2: r.Intn(8), S: s})
+		case x < 25:
 			s := genIdent(r)
 			if r.Chance(1, 5) {
 				s = textgen.ASCIIOnly(tg.String())
@@ -459,16 +515,24 @@ func corpus() []json.RawMessage {
 		add(input{K: "fuzz", E: e, B: []byte{0}})
 		add(input{K: "fuzz", E: e, B: []byte{0x80, '"', 0xff}})
 	}
+	extraCorpus(add)
 	return out
 }
 
 func main() {
+	if len(os.Args) == 3 && os.Args[1] == "envchild" {
+		cfg, _ := strconv.Atoi(os.Args[2])
+		childMain(cfg)
+		return
+	}
 	_ = reflect.TypeOf
 	driver.Main(driver.Engine{
 		Prop: "C16", CoqImport: "Dials.Check.C16Check", CoqRun: "run_cases",
 		Rule: "compared cases: random rune lists (valid UTF-8; ASCII for the case decoders) through the 8 case decoders, parse.String at 27 types, " +
-			"the 11 integral slice parsers and strconv.Unquote, outcome and value compared with the model; byte-level cases: byte strings of length 0-65536 " +
-			"(mutated seeds, special bytes, invalid UTF-8, NULs, long runs) through 47 entry points incl. float/complex/duration types and the flag helpers' Set, " +
+			"the 11 integral slice parsers, strconv.Unquote, the 6 encoders on arbitrary word lists (empty words, single runes, upper-case, digit-leading; non-ASCII uncompared) " +
+			"and decode-encode-decode pipelines, outcome and value compared with the model; child processes started with a hand-built environment block " +
+			"(entries without '=', '=X', 'A=B=C', long and non-UTF-8 entries) running env.Source.Value on 4 config set-ups, oracle = the child reports 'returned'; byte-level cases: byte strings of length 0-65536 " +
+			"(mutated seeds, special bytes, invalid UTF-8, NULs, long runs) through 61 entry points incl. float/complex/duration types and the flag helpers' Set, " +
 			"oracle = returned within 2 s without panic; non-trivial: input of at least 2 runes/bytes; distinct = distinct JSON inputs",
 		Gen: gen, Run: run, Corpus: corpus(),
 	})
